@@ -290,3 +290,7 @@ impl Lattice {
         Ok(())
     }
 }
+
+// verification hook: harness text lives outside the repository (see MANIFEST.hooks)
+#[cfg(any(kani, sudachi_verif))]
+include!(concat!(env!("SUDACHI_VERIF_DIR"), "/analysis__lattice.rs"));
